@@ -541,6 +541,15 @@ impl World for Tl {
                     m.st[k] = St::Unset;
                     cx.stats.count(if before == RState::Ready { "cancel ok: Ready" } else { "cancel ok: Waiting" }, 1);
                 } else {
+                    ensure!(
+                        !(before == RState::Waiting || before == RState::Ready),
+                        "pending-is-cancellable",
+                        "cancel({:?}) was refused at ledger {} although the operation is {:?} ({:?}): a pending operation goes back to Unset by cancelling",
+                        id,
+                        now,
+                        before,
+                        m.st[k]
+                    );
                     let why = match before {
                         RState::Unset => "cancel refused: Unset",
                         RState::Done => "cancel refused: Done",
